@@ -408,7 +408,13 @@ class FsmWorld(pipe.PipeWorld):
         if fsm is None:
             return
         out = self.outstanding()
-        active = fsm.is_pipeline_active()
+        # the oracle's own reading of the documented predicate (running and not in transition) OR the code's: a change to
+        # is_pipeline_active() must not move the oracle with it (own mutant 'ignores transitioning', DESIGN 12.5)
+        declared = fsm.is_pipeline_active()
+        active = declared
+        if declared and fsm.transitioning.name != 'active':
+            self.violate('C10', 'active_while_transitioning', 'predicate',
+                         f'is_pipeline_active() is True in {fsm.state}/{fsm.transitioning.name}')
         if active and fsm.state != 'running':
             self.violate('C10', 'active_but_not_running', fsm.state, f'pipeline declares itself active in state {fsm.state}')
         if active and out:
